@@ -8,11 +8,14 @@ mod features;
 mod io;
 mod server;
 
+mod dump;
+mod gen_prog;
 mod gen_text;
 mod ops_codec;
 mod ops_doc;
 mod ops_lex;
 mod ops_net;
+mod ops_parse;
 mod rng;
 mod wire;
 
@@ -29,7 +32,7 @@ fn run_line(line: &str) -> String {
     }
     let (op, args) = (parts[0], &parts[1..]);
     let res = panic::catch_unwind(|| {
-        ops_lex::run(op, args).or_else(|| ops_doc::run(op, args)).or_else(|| ops_codec::run(op, args)).or_else(|| ops_net::run(op, args))
+        ops_lex::run(op, args).or_else(|| ops_doc::run(op, args)).or_else(|| ops_codec::run(op, args)).or_else(|| ops_net::run(op, args)).or_else(|| ops_parse::run(op, args))
     });
     match res {
         Ok(Some(s)) => s,
@@ -64,6 +67,8 @@ fn main() {
             match prop.as_str() {
                 "C06" => ops_lex::gen_c06(&mut rng, if thorough { 40000 } else { 3000 }, &mut out),
                 "C07" => ops_lex::gen_c07(&mut rng, if thorough { 60000 } else { 4000 }, thorough, &mut out),
+                "NEW" => ops_parse::gen_new(&mut rng, if thorough { 20000 } else { 2000 }, &mut out),
+                "PARSE" => ops_parse::gen_parse(&mut rng, if thorough { 20000 } else { 2000 }, &mut out),
                 "C19" => ops_codec::gen_c19(&mut rng, if thorough { 6000 } else { 500 }, &mut out),
                 "C08" => ops_doc::gen_c08(&mut rng, if thorough { 20000 } else { 1200 }, &mut out),
                 _ => {
